@@ -255,7 +255,8 @@ pub fn family_of(group: &str) -> &'static str {
     match group {
         "p1" | "p2" => "Monoclinic",
         "hex1" => "Hexagonal",
-        "tet1" => "Tetragonal",
+        "tet1" | "p4" => "Tetragonal",
+        "p2r" => "Monoclinic",
         _ => "Orthorhombic",
     }
 }
